@@ -29,6 +29,11 @@ def check(ctx):
     rnd = []
     for i in range(1500 if ctx.thorough else 300):
         rnd += vc.random_script(ctx.rng, "vec", "tracked" if i % 3 else "int", 0, 80)
+    # sizes around and beyond the 8- and 16-bit boundaries
+    for n in (255, 256, 257, 300):
+        rnd += vc.big_script(ctx.rng, "tracked", n)
+    for n in (1000, 5000):     # (the exact-fit growth policy makes filling a vector quadratic: 2^16 elements are out of reach of the 2 s watchdog)
+        rnd += vc.big_script(ctx.rng, "int", n)
     t1 = ctx.drive(drv, script, "vec_cover")
     t2 = ctx.drive(drv, rnd, "vec_random")
     bad = ctx.judge("VecLifeTrace", [t1, t2])
